@@ -248,3 +248,66 @@ def run_second(sc, path, spec2, PX='req2'):
     sc.funds = funds0                      # the first request's attached funds stay the scenario's
     for fin in sc.run_entry('execute', [sc.deps(), sc.env(), info, req2['msg']], world=path.world, pc=list(path.pc) + extra):
         yield fol, req2, W.Path(fin)
+
+
+# ------------------------------------------------------------------ histories from the empty book (BMC along accepted requests, independent of Inv)
+def history_templates(tier):
+    """sequences of request shapes; every request is fully symbolic, only accepting paths are followed (a refused request is a no-op)"""
+    S = default_spec
+    T = []
+    for af in (False, True):
+        T.append(dict(name='convertible ask: create, approve, partial reject, cancel', cfg=dict(cfg_ask_fee=af, cfg_bid_fee=False),
+                      steps=[S('CreateAsk', nfunds=1), S('ApproveAsk', nfunds=1), S('RejectAskSome'), S('CancelAsk')]))
+    T.append(dict(name='fee-bearing bid: create, partial reject, expire', cfg=dict(cfg_ask_fee=False, cfg_bid_fee=True),
+                  steps=[S('CreateBid', nfunds=1, reqfee=True), S('RejectBidSome'), S('ExpireBid')]))
+    T.append(dict(name='bid and ask: create both, match, cancel bid, cancel ask', cfg=dict(cfg_ask_fee=True, cfg_bid_fee=True),
+                  steps=[S('CreateBid', nfunds=1, reqfee=True), S('CreateAsk', nfunds=1), S('ExecuteMatch'), S('CancelBid'), S('CancelAsk')]))
+    T.append(dict(name='convertible ask matched after approval, then cancelled', cfg=dict(cfg_ask_fee=False, cfg_bid_fee=False),
+                  steps=[S('CreateAsk', nfunds=1), S('ApproveAsk', nfunds=1), S('CreateBid', nfunds=1), S('ExecuteMatch'), S('CancelAsk')]))
+    if tier == 'thorough':
+        T.append(dict(name='two fills of one fee-bearing bid, then cancel', cfg=dict(cfg_ask_fee=True, cfg_bid_fee=True),
+                      steps=[S('CreateBid', nfunds=1, reqfee=True), S('CreateAsk', nfunds=1), S('ExecuteMatch'), S('ExecuteMatch'), S('CancelBid')]))
+        T.append(dict(name='partial reject then match then expire of a bid', cfg=dict(cfg_ask_fee=False, cfg_bid_fee=True),
+                      steps=[S('CreateBid', nfunds=1, reqfee=True), S('RejectBidSome'), S('CreateAsk', nfunds=1), S('ExecuteMatch'), S('ExpireBid')]))
+    return [dict(kind='History', **t) for t in T]
+
+
+def build_history(eng, bounds, hspec):
+    sc = W.Scenario(eng, bounds, 'history: ' + hspec['name'])
+    c = hspec['cfg']
+    sc.make_cfg(ask_fee=c['cfg_ask_fee'], bid_fee=c['cfg_bid_fee'], n_appr=1, n_exec=1, n_conv=1, n_quote=1)
+    sc.set_attrs(0)
+    # every denomination is an ordinary coin in these histories (the mechanism is C10's subject)
+    from .harness import restricted
+    for t in [sc.cfgf('base_denom')] + sc.cfgf('convertible_base_denoms') + sc.cfgf('supported_quote_denoms'):
+        sc.assume.append(z3.Not(restricted(t)))
+    return sc, {'kind': 'History', 'spec': hspec}
+
+
+def run_history(sc, hspec, max_paths=4000):
+    """depth-first over accepting paths; yields (list of (req, funds, path)) for every complete accepted history"""
+    steps = hspec['steps']
+
+    def rec(i, world, pc, trail):
+        if i == len(steps):
+            yield trail
+            return
+        spec = dict(steps[i], **hspec['cfg'])
+        n0 = len(sc.assume)
+        px = 'h%d' % i
+        req = make_request(sc, spec, px)
+        funds0 = sc.funds if hasattr(sc, 'funds') else []
+        info = sc.info(spec['nfunds'], prefix=px)
+        funds = list(sc.funds)
+        extra = sc.assume[n0:]
+        for fin in sc.run_entry('execute', [sc.deps(), sc.env(), info, req['msg']], world=world, pc=list(pc) + extra):
+            p = W.Path(fin)
+            if p.kind != 'ok':
+                continue
+            yield from rec(i + 1, p.world, p.pc, trail + [(req, funds, p)])
+    n = 0
+    for tr in rec(0, sc.world, list(sc.assume), []):
+        n += 1
+        if n > max_paths:
+            raise RuntimeError('history path budget exceeded')
+        yield tr
